@@ -150,6 +150,9 @@ class Gen(base.Gen):
             return
         base.Gen.stage_op(self)
 
+    def overloads_op(self):
+        self.ops.append("overloads " + self.rng.choice(["threadsafe", "threadsafe", "plain"]))
+
     def setcur(self):
         fam = self.rng.choice(["new", "newarray", "malloc"])
         ai = self.rng.choice(CALLABLE)
@@ -191,6 +194,8 @@ class Gen(base.Gen):
             self.realloc()
         elif x < 0.89:
             self.typecheck_op()
+        elif x < 0.905:
+            self.overloads_op()
         elif x < 0.92:
             self.setcur()
         elif x < 0.94:
@@ -300,9 +305,9 @@ def sweep_addresses(sep):
     return ops
 
 
-def sweep_overloads(tc, curs):
-    """3 acquiring x 3 releasing overloads, with the current allocators `curs`"""
-    ops = ["setup", "typecheck " + ("on" if tc else "off")]
+def sweep_overloads(tc, curs, threadsafe=False):
+    """3 acquiring x 3 releasing overloads, with the current allocators `curs`, plain or thread-safe overloads"""
+    ops = ["setup", "typecheck " + ("on" if tc else "off"), "overloads " + ("threadsafe" if threadsafe else "plain")]
     for fam, ai in curs.items():
         ops.append("setcur %s %d" % (fam, ai))
     k = 0
@@ -335,6 +340,7 @@ def sweeps(rng, tier):
     for tc in (True, False):
         for curs in ({}, {"new": 3, "newarray": 4, "malloc": 5}, {"new": 9, "malloc": 10}, {"new": 8, "newarray": 8, "malloc": 8}):
             out.append(("sweep_overloads", sweep_overloads(tc, curs)))
+            out.append(("sweep_overloads", sweep_overloads(tc, curs, threadsafe=True)))
     return out
 
 
@@ -373,6 +379,7 @@ def extra(ctx, exe):
 def _classes(r):
     op = None
     fails = 0
+    ts = False
     for l in r.impl:
         w = l.split()
         if not w:
@@ -381,10 +388,14 @@ def _classes(r):
             if op and op[0] in ("free", "gdelete", "gdeletearray", "gfree", "realloc") and fails == 0:
                 yield "release_silent_" + ("overload" if op[0][0] == "g" else "direct")
             op, fails = w[1:], 0
+            if op[:1] == ["overloads"]:
+                ts = op[1] == "threadsafe"
         elif w[0] == "fail":
             fails += 1
             yield "report_" + w[1] + ("_overload" if op and op[0][0] == "g" else "")
         elif w[0] == "ufree" and op and op[0][0] == "g":
+            if ts:
+                yield "threadsafe_overload_release"
             yield "overload_release_poisoned" if w[3] != "-" and set(w[3]) <= set("cd") else "overload_release_empty_block" if w[3] == "-" else "overload_release_NOT_poisoned"
         elif w[0] == "nfree" and w[1] == "0":
             yield "bookkeeping_free_of_inline_record"
